@@ -49,7 +49,7 @@ CHECKS = {
    note="'All byte lines' beyond the alphabet would be fuzzing (another family); the alphabet and depth are stated in the evidence.",
    technique="stateless bounded-exhaustive exploration of the real protocol handler + core task (all line sequences up to depth 2-3, witness-script oracle)"),
  "C09": dict(cat="exploration", engine="wbmc-core/persist", ref="DESIGN.md §3 C09",
-   text="Exhaustive enumeration of a bounded space of store contents (every single entry over 9 key shapes (incl. empty and unicode segments, a first segment that only starts with $SYS, $SYS as a later segment) x 10 JSON values incl. values that look like the file format's tags x plain/CAS at versions 1, 2, 2^53+1, u64::MAX; pairs and triples over a reduced value set) x 5 registration sets (incl. cleared, i.e. null, registrations next to real ones) x the three on-disk layouts v3/v2/v1 x both toggle states: built through the real API, flushed with the real synchronous(), re-laid-out, loaded through the real load() fall-back chain, and compared key by key (value, kind, version, nothing under $SYS, registrations applied).",
+   text="Exhaustive enumeration of a bounded space of store contents (every single entry over 9 key shapes (incl. empty and unicode segments, a first segment that only starts with $SYS, $SYS as a later segment) x 10 JSON values incl. values that look like the file format's tags x plain/CAS at versions 1, 2, 2^53+1, u64::MAX; pairs and triples over a reduced value set) x 6 registration sets (incl. cleared, i.e. null, registrations next to real ones, and a last will naming one key twice) x the three on-disk layouts v3/v2/v1 x both toggle states: built through the real API, flushed with the real synchronous(), re-laid-out, loaded through the real load() fall-back chain, and compared key by key (value, kind, version, nothing under $SYS, registrations applied).",
    note="The reference takes the content at the flush from the instance itself and applies grave goods / last wills with the documented relation; v1 has no registration file.",
    technique="exhaustive enumeration of a bounded input space through the real flush and load code (round trip oracle)"),
  "C10": dict(cat="fault_enumeration", engine="wbmc-core/persist + crashfs", ref="DESIGN.md §3 C10",
